@@ -484,7 +484,8 @@ def norm_events(revs, ostep):
         elif k in ('SSet', 'SState'):
             n.update(step=step, stage=e['stage'], state=e['state'])
         elif k == 'SProv':
-            n.update(step=step, stage=e['stage'], ok=bool(e['ok']), val=str(e.get('val', 'nil')).lower(), n=int(e.get('n', 0)), par=int(e.get('par', 0)))
+            n.update(step=step, stage=e['stage'], ok=bool(e['ok']), val=str(e.get('val', 'nil')).lower(), n=int(e.get('n', 0)), par=int(e.get('par', 0)),
+                     state=str(e.get('state') or 'nil'))
         elif k == 'SSlot':
             n.update(step=step, slot=e['slot'], op=e['op'], val=str(e.get('val', 'nil')).lower())
         elif k == 'SCtx':
